@@ -316,7 +316,8 @@ pub fn gen_case(seed: u64, id: usize, profile: Profile, nops: usize) -> Case {
         c.rb = c.l2;
     }
     if profile == Profile::CrashySparse || profile == Profile::Sparse {
-        c.cb = *rng.pick(&[10usize, 12, 12]);
+        // 512-byte clusters: 64 clusters per L2 table, so the L1 table has a second block
+        c.cb = *rng.pick(&[10usize, 12, 12, 9]);
         let cs = 1u64 << c.cb;
         c.ro = rng.range(3, 6) as u8;
         c.bsb = 9;
@@ -1322,6 +1323,9 @@ impl Runner {
                             Err(_) => "panic".into(),
                         };
                         self.emit(k, format!("nfsweep {}", txt));
+                        // ... and what the live device reads at the same moment
+                        let live = catch_unwind(AssertUnwindSafe(|| block_on(sweep(&dev, self.case.size, 1 << params.get_bs_bits()))));
+                        self.emit(k, format!("nflive {}", match live { Ok(Ok(s)) => s, Ok(Err(_)) => "err".into(), Err(_) => "panic".into() }));
                     }
                 }
             }
